@@ -1,9 +1,12 @@
 SPECIFICATION Spec
 CONSTANTS
   MaxBody = 3
-  Shapes <- Shapes2
+  Shapes <- ShapesQ2
   Rounds = 2
+  RESETLAST = TRUE
+  HDRDATA = TRUE
+  MaxEmpty = 1
   GEN = FALSE
-INVARIANTS C02_DeliveredIsCompletePrefix C03_AtEOM C03_NoCarryOver C11_HooksOnce C11_NeverDelivered NoDesync
+INVARIANTS C02_DeliveredIsCompletePrefix C03_AtEOM C03_NoCarryOver C11_HooksOnce C11_NeverDelivered NoDesync NoSpurious
 VIEW View
 CHECK_DEADLOCK FALSE
